@@ -302,6 +302,9 @@ type verifC22AA struct {
 	pub   *SubStream
 	mu    sync.Mutex
 	units []verifC22AAUnit
+
+	markerID int
+	marker   chan int
 }
 
 var verifC22aa *verifC22AA
@@ -346,23 +349,46 @@ func verifC22ShortAU(au [][]byte) string {
 	return strings.Join(s, ",")
 }
 
-// barrier: a marker callback is pushed into the reader's own queue; when it has run, every unit that was
-// written before this call has been handed to the reader callback.  No sleeping, no timing assumption.
-func (a *verifC22AA) barrier() bool {
-	done := make(chan struct{})
-	dl := time.Now().Add(verifC22Guard)
-	for !a.rd.buffer.Push(func() error { close(done); return nil }) {
-		if time.Now().After(dl) {
+// barrier through the public API only: a marker unit (one SEI NAL unit carrying an id) is written by the current
+// publisher; when the reader callback has seen it, every unit written before has been handed over (the reader
+// queue is FIFO).  No sleeping, no timing assumption, no dependence on the queue implementation.
+func (a *verifC22AA) barrier(pub *SubStream) bool {
+	a.markerID++
+	id := a.markerID
+	nalu := []byte{0x06, 0xF0, byte(id >> 8), byte(id)}
+	var pl unit.Payload = unit.PayloadH264{nalu}
+	if a.codec == "h265" {
+		nalu = []byte{0x4E, 0x01, 0xF0, byte(id >> 8), byte(id)}
+		pl = unit.PayloadH265{nalu}
+	}
+	m := pub.InDesc.Medias[0]
+	pub.WriteUnit(m, m.Formats[0], &unit.Unit{PTS: 90000, Payload: pl})
+	dl := time.After(verifC22Guard)
+	for {
+		select {
+		case got := <-a.marker:
+			if got == id&0xffff {
+				return true
+			}
+		case <-dl:
 			return false
 		}
-		time.Sleep(100 * time.Microsecond) // queue full: the reader goroutine is draining it
 	}
-	select {
-	case <-done:
-		return true
-	case <-time.After(verifC22Guard):
-		return false
+}
+
+// is this delivered unit a barrier marker?
+func (a *verifC22AA) markerOf(au [][]byte) (int, bool) {
+	if len(au) != 1 {
+		return 0, false
 	}
+	n := au[0]
+	if a.codec == "h264" && len(n) == 4 && n[0] == 0x06 && n[1] == 0xF0 {
+		return int(n[2])<<8 | int(n[3]), true
+	}
+	if a.codec == "h265" && len(n) == 5 && n[0] == 0x4E && n[1] == 0x01 && n[2] == 0xF0 {
+		return int(n[3])<<8 | int(n[4]), true
+	}
+	return 0, false
 }
 
 func (a *verifC22AA) takeUnits() []verifC22AAUnit {
@@ -392,7 +418,7 @@ func verifC22AAExec(f []string) string {
 	if f[0] == "reset" {
 		verifC22Close()
 		verifC22AAClose()
-		a := &verifC22AA{codec: f[1]}
+		a := &verifC22AA{codec: f[1], marker: make(chan int, 64)}
 		// oracle columns: the parameter sets of the built-in offline description
 		if strings.Join(f[3:], " ") != strings.Join(verifC22OfflineParams(a.codec), " ") {
 			return "stale-oracle"
@@ -425,6 +451,13 @@ func verifC22AAExec(f []string) string {
 					au = p
 				}
 				full = verifC22FmtPayload(u.Payload)
+			}
+			if id, ok := a.markerOf(au); ok {
+				select {
+				case a.marker <- id:
+				default:
+				}
+				return nil
 			}
 			a.mu.Lock()
 			a.units = append(a.units, verifC22AAUnit{short: verifC22ShortAU(au), full: full})
@@ -486,7 +519,7 @@ func verifC22AAExec(f []string) string {
 		if err := pub.Initialize(); err != nil {
 			return "err-subinit"
 		}
-		if !a.barrier() {
+		if !a.barrier(pub) {
 			return "stuck"
 		}
 		a.pub = pub
@@ -509,7 +542,7 @@ func verifC22AAExec(f []string) string {
 		if res != "" {
 			return res
 		}
-		if !a.barrier() {
+		if !a.barrier(a.pub) {
 			return "stuck"
 		}
 		us := a.takeUnits()
